@@ -2,7 +2,7 @@
 # tools/seed_verify.sh <seeddir>  (contains patch.diff or patch.rebased.diff, demo.py)
 # Confirms in the scratch worktree /tmp/seedverify (at /repo HEAD): patch applies, pinned suite passes with it,
 # demo FAILs with it and PASSes without it.
-d="$1"; wt=/tmp/seedverify
+d="$1"; wt=${SEED_WT:-/tmp/seedverify}
 p="$d/patch.rebased.diff"; [ -f "$p" ] || p="$d/patch.diff"
 cd $wt && git checkout -q -- . && git checkout -q --detach $(git -C /repo rev-parse HEAD) 2>/dev/null
 if ! git apply --check "$p" 2>/dev/null; then echo "APPLY=no"; exit 2; fi
